@@ -1051,6 +1051,7 @@ def execute(sc):
         res['harness'] = v['harness']
         return res
     st['examples'] = v.get('examples', 1)
+    st['runs_n'] = 1
     st['ops'] = v['ops_total']
     st['faults'] = v['faults']
     res['keys'] = v['digests']
@@ -1090,7 +1091,8 @@ def det_view(res):
 
 
 def evidence_extra(stats):
-    return {'hypothesis_examples': stats.get('examples', 0), 'operations_applied': stats.get('ops', 0)}
+    return {'evaluations': int(stats.get('examples', 0)), 'hypothesis_runs_one_prng_value_each': int(stats.get('runs_n', 0)) or None,
+            'operations_applied': stats.get('ops', 0)}
 
 
 def reach_problems(stats, tier):
